@@ -75,6 +75,87 @@ let parse_sr s = parse_res (fun v -> let (h, t) = split2 ':' v in
   | [a; b; c] -> { sr_general = a; sr_proto_id = b; sr_proto_code = c; sr_data = bytes_of_hex t }
   | _ -> failwith "sr fields") s
 
+
+(* ---- check-in, BDX, BLE advertisement, mDNS TXT (deepening) ---- *)
+let b01 b = if b then "1" else "0"
+let opt_str (f : 'a -> string) (o : 'a option) : string =
+  match o with Some v -> "some:" ^ f v | None -> "none"
+let parse_opt (f : string -> 'a) (s : string) : 'a option =
+  if s = "none" then None else let (_, v) = split2 ':' s in Some (f v)
+let optn_str (o : n option) = match o with Some v -> ns v | None -> "-"
+let optn_of s = if s = "-" then None else Some (sn s)
+
+let tc_str t = ns (tc_to_byte t)
+let init_str (m : bdx_init) =
+  String.concat "," [tc_str m.i_tc; ns (rc_to_byte m.i_rc); ns m.i_mbs; ns m.i_start; ns m.i_len]
+  ^ ":" ^ hex_of_bytes m.i_fd ^ ":" ^ hex_of_bytes m.i_meta
+let accept_str (m : bdx_accept) =
+  String.concat "," [b01 m.a_receive; tc_str m.a_tc; ns (rc_to_byte m.a_rc); ns m.a_mbs; ns m.a_len]
+  ^ ":" ^ hex_of_bytes m.a_meta
+let split3 s = match String.split_on_char ':' s with
+  | [a; b; c] -> (a, b, c) | _ -> failwith ("3 fields: " ^ s)
+let parse_init s = parse_res (fun v -> let (h, fd, meta) = split3 v in
+  match List.map sn (String.split_on_char ',' h) with
+  | [tc; rc; mbs; st; len] -> { i_tc = tc_of_byte tc; i_rc = rc_of_byte rc; i_mbs = mbs; i_start = st;
+                                 i_len = len; i_fd = bytes_of_hex fd; i_meta = bytes_of_hex meta }
+  | _ -> failwith "init fields") s
+let parse_accept s = parse_res (fun v -> let (h, meta) = split2 ':' v in
+  match String.split_on_char ',' h with
+  | [r; tc; rc; mbs; len] -> { a_receive = (r = "1"); a_tc = tc_of_byte (sn tc); a_rc = rc_of_byte (sn rc);
+                               a_mbs = sn mbs; a_len = sn len; a_meta = bytes_of_hex meta }
+  | _ -> failwith "accept fields") s
+let block_str (c, d) = ns c ^ ":" ^ hex_of_bytes d
+let parse_block s = parse_res (fun v -> let (c, d) = split2 ':' v in (sn c, bytes_of_hex d)) s
+let skip_str (c, k) = ns c ^ "," ^ ns k
+let parse_skip s = parse_res (fun v -> let (c, k) = split2 ',' v in (sn c, sn k)) s
+
+let adv_str (a : adv) = String.concat "," [ns a.a_vid; ns a.a_pid; ns a.a_disc; b01 a.a_additional]
+let radv_str (r : radv) = hex_of_bytes r.r_id ^ "," ^ b01 r.r_additional
+let parse_adv s = parse_opt (fun v -> match String.split_on_char ',' v with
+  | [vid; pid; d; a] -> { a_vid = sn vid; a_pid = sn pid; a_disc = sn d; a_additional = (a = "1") }
+  | _ -> failwith "adv fields") s
+let parse_radv s = parse_opt (fun v -> let (i, a) = split2 ',' v in
+  { r_id = bytes_of_hex i; r_additional = (a = "1") }) s
+
+let pairs_str (l : (n list * n list) list) =
+  if l = [] then "-" else String.concat ";" (List.map (fun (k, v) -> hex_of_bytes k ^ ":" ^ hex_of_bytes v) l)
+let parse_pairs s = if s = "-" then [] else
+  List.map (fun p -> let (k, v) = split2 ':' p in (bytes_of_hex k, bytes_of_hex v)) (String.split_on_char ';' s)
+let comm_adv_of = function
+  | [disc; enh; vid; pid; sai; sii; dn; pi; ph; dt; tcp; icd] ->
+      { ca_disc = sn disc; ca_enhanced = (enh = "1"); ca_vid = sn vid; ca_pid = sn pid;
+        ca_sai = optn_of sai; ca_sii = optn_of sii; ca_dn = bytes_of_hex dn; ca_pi = bytes_of_hex pi;
+        ca_ph = sn ph; ca_dt = optn_of dt; ca_tcp = (tcp = "1");
+        ca_icd = (if icd = "-" then None else Some (icd = "1")) }
+  | _ -> failwith "comm_adv fields"
+let own_filter (a : comm_adv) =
+  { c_disc = Some a.ca_disc; c_short = Some (fst (N.div_eucl a.ca_disc (n_of_int 256)));
+    c_vid = Some a.ca_vid; c_pid = Some a.ca_pid; c_dt = a.ca_dt; c_cm_only = true }
+let filter_of s = match String.split_on_char ',' s with
+  | [d; sh; v; p; dt; cm] -> { c_disc = optn_of d; c_short = optn_of sh; c_vid = optn_of v; c_pid = optn_of p;
+                               c_dt = optn_of dt; c_cm_only = (cm = "1") }
+  | _ -> failwith "filter fields"
+
+(* oracles of the check-in model: constant answers computed by the generator with the
+   real primitives (HMAC / AES-CCM called directly, not through sc/checkin.rs) *)
+let ci_line id cap counter app nonce enc =
+  let counter = sn counter and app = bytes_of_hex app in
+  let nonce = bytes_of_hex nonce and enc = bytes_of_hex enc in
+  let nonce_of c = if c = counter then nonce else [] in
+  let aead_enc _ _ = enc in
+  let plaintext = le_bytes (nat_of_int 4) counter @ app in
+  let aead_dec n c = if n = nonce && c = enc then Some plaintext else None in
+  let payload = checkin_generate nonce_of aead_enc (nat_of_int (int_of_string cap)) counter app in
+  let parsed = match payload with
+    | Ok p -> res_str (fun (c, a) -> ns c ^ ":" ^ hex_of_bytes a) (checkin_parse nonce_of aead_dec p)
+    | _ -> "-" in
+  Printf.sprintf "CI %s %s %s" id (res_str hex_of_bytes payload) parsed
+let cp_oracles dec expn =
+  let pt = if dec = "none" then None else Some (bytes_of_hex dec) in
+  let nonce_of _ = bytes_of_hex expn in
+  let aead_dec _ _ = pt in
+  (nonce_of, aead_dec)
+
 let digits_str (l : n list) = String.concat "" (List.map (fun d -> string_of_int (int_of_n d)) l)
 let b01 b = if b then "1" else "0"
 let opt_n s = if s = "-" then None else Some (sn s)
@@ -138,7 +219,72 @@ let model_line (f : string list) : string option =
       Some (Printf.sprintf "S %s %s %s" id (hex_of_bytes enc) (res_str sr_str (sr_decode enc)))
   | ["SD"; id; hx] ->
       Some (Printf.sprintf "SD %s %s" id (res_str sr_str (sr_decode (bytes_of_hex hx))))
+  | ["CI"; id; _key; cap; counter; app; nonce; enc] -> Some (ci_line id cap counter app nonce enc)
+  | ["CP"; id; _key; payload; dec; expn] ->
+      let (nonce_of, aead_dec) = cp_oracles dec expn in
+      Some (Printf.sprintf "CP %s %s" id
+              (res_str (fun (c, a) -> ns c ^ ":" ^ hex_of_bytes a) (checkin_parse nonce_of aead_dec (bytes_of_hex payload))))
+  | ["XI"; id; tc; rc; mbs; st; len; fd; meta] ->
+      let m = { i_tc = tc_of_byte (sn tc); i_rc = rc_of_byte (sn rc); i_mbs = sn mbs; i_start = sn st;
+                i_len = sn len; i_fd = bytes_of_hex fd; i_meta = bytes_of_hex meta } in
+      let enc = init_encode m in
+      Some (Printf.sprintf "XI %s %s %s" id (hex_of_bytes enc) (res_str init_str (init_decode enc)))
+  | ["XID"; id; hx] -> Some (Printf.sprintf "XID %s %s" id (res_str init_str (init_decode (bytes_of_hex hx))))
+  | ["XA"; id; r; tc; rc; mbs; len; meta] ->
+      let m = { a_receive = (r = "1"); a_tc = tc_of_byte (sn tc); a_rc = rc_of_byte (sn rc); a_mbs = sn mbs;
+                a_len = sn len; a_meta = bytes_of_hex meta } in
+      let enc = accept_encode m in
+      Some (Printf.sprintf "XA %s %s %s" id (hex_of_bytes enc) (res_str accept_str (accept_decode (r = "1") enc)))
+  | ["XAD"; id; r; hx] ->
+      Some (Printf.sprintf "XAD %s %s" id (res_str accept_str (accept_decode (r = "1") (bytes_of_hex hx))))
+  | ["XB"; id; c; d] ->
+      let enc = block_encode (sn c) (bytes_of_hex d) in
+      Some (Printf.sprintf "XB %s %s %s" id (hex_of_bytes enc) (res_str block_str (block_decode enc)))
+  | ["XBD"; id; hx] -> Some (Printf.sprintf "XBD %s %s" id (res_str block_str (block_decode (bytes_of_hex hx))))
+  | ["XQ"; id; c; tr] ->
+      let enc = query_encode (sn c) @ bytes_of_hex tr in
+      Some (Printf.sprintf "XQ %s %s %s" id (hex_of_bytes enc) (res_str ns (query_decode enc)))
+  | ["XQD"; id; hx] -> Some (Printf.sprintf "XQD %s %s" id (res_str ns (query_decode (bytes_of_hex hx))))
+  | ["XS"; id; c; k; tr] ->
+      let enc = skip_encode (sn c) (sn k) @ bytes_of_hex tr in
+      Some (Printf.sprintf "XS %s %s %s" id (hex_of_bytes enc) (res_str skip_str (skip_decode enc)))
+  | ["XSD"; id; hx] -> Some (Printf.sprintf "XSD %s %s" id (res_str skip_str (skip_decode (bytes_of_hex hx))))
+  | ["A"; id; vid; pid; disc] ->
+      let a = { a_vid = sn vid; a_pid = sn pid; a_disc = sn disc; a_additional = false } in
+      let enc = adv_encode a in
+      Some (Printf.sprintf "A %s %s %s %s" id (hex_of_bytes enc) (opt_str adv_str (adv_parse enc))
+              (opt_str adv_str (adv_parse_service (adv_payload a))))
+  | ["AR"; id; rid] ->
+      let r = { r_id = bytes_of_hex rid; r_additional = false } in
+      let enc = radv_encode r in
+      Some (Printf.sprintf "AR %s %s %s %s" id (hex_of_bytes enc) (opt_str radv_str (radv_parse enc))
+              (opt_str radv_str (radv_parse_service (radv_payload r))))
+  | ["AD"; id; hx] ->
+      let b = bytes_of_hex hx in
+      Some (Printf.sprintf "AD %s %s %s %s %s" id (opt_str adv_str (adv_parse b)) (opt_str adv_str (adv_parse_service b))
+              (opt_str radv_str (radv_parse b)) (opt_str radv_str (radv_parse_service b)))
+  | "MC" :: id :: fields ->
+      let a = comm_adv_of fields in
+      let published = comm_txt a in
+      let parsed = txt_decode (txt_encode published) in
+      Some (Printf.sprintf "MC %s %s %s %s" id (pairs_str published) (pairs_str parsed)
+              (b01 (filter_matches (own_filter a) (txt_scan parsed))))
+  | ["MF"; id; filt; pairs] ->
+      let ps = parse_pairs pairs in
+      let ((sii, sai), sat) = session_params ps in
+      Some (Printf.sprintf "MF %s %s %s,%s,%s %s" id (b01 (filter_matches (filter_of filt) (txt_scan ps)))
+              (optn_str sii) (optn_str sai) (optn_str sat) (b01 (tcp_server ps)))
+  | ["MTD"; id; hx] -> Some (Printf.sprintf "MTD %s %s" id (pairs_str (txt_decode (bytes_of_hex hx))))
+  | ["MN"; id; kind; a; b] ->
+      let label = if kind = "o" then op_label (sn a) (sn b) else comm_label (sn a) in
+      let m = if kind = "o" then op_label_match (sn a) (sn b) label else comm_label_match (sn a) label in
+      Some (Printf.sprintf "MN %s %s %s" id (hex_of_bytes label) (b01 m))
+  | ["MI"; id; kind; a; b; label] ->
+      let l = bytes_of_hex label in
+      let m = if kind = "o" then op_label_match (sn a) (sn b) l else comm_label_match (sn a) l in
+      Some (Printf.sprintf "MI %s %s" id (b01 m))
   | _ -> None
+
 
 (* monitor: case fields, then "@", then the implementation's output fields (after the id) *)
 let spec_line (case : string list) (impl : string list) : string option =
@@ -202,7 +348,57 @@ let spec_line (case : string list) (impl : string list) : string option =
       Some (Printf.sprintf "S %s %s" id (b01 (mon_sr_rt r (bytes_of_hex enc) d && mon_sr_dec (bytes_of_hex enc) d)))
   | ["SD"; id; hx], [dec] ->
       Some (Printf.sprintf "SD %s %s" id (b01 (mon_sr_dec (bytes_of_hex hx) (parse_sr dec))))
+  | ["CI"; id; _key; cap; counter; app; _nonce; _enc], [payload; parsed] ->
+      let p = parse_res bytes_of_hex payload in
+      let d = if parsed = "-" then Panic N0
+        else parse_res (fun v -> let (c, a) = split2 ':' v in (sn c, bytes_of_hex a)) parsed in
+      Some (Printf.sprintf "CI %s %s" id (b01 (mon_checkin_rt (nat_of_int (int_of_string cap)) (sn counter) (bytes_of_hex app) p d)))
+  | ["CP"; id; _key; payload; _dec; expn], [parsed] ->
+      let d = parse_res (fun v -> let (c, a) = split2 ':' v in (sn c, bytes_of_hex a)) parsed in
+      Some (Printf.sprintf "CP %s %s" id (b01 (mon_checkin_dec (fun _ -> bytes_of_hex expn) (bytes_of_hex payload) d)))
+  | ["XI"; id; tc; rc; mbs; st; len; fd; meta], [enc; dec] ->
+      let m = { i_tc = tc_of_byte (sn tc); i_rc = rc_of_byte (sn rc); i_mbs = sn mbs; i_start = sn st;
+                i_len = sn len; i_fd = bytes_of_hex fd; i_meta = bytes_of_hex meta } in
+      let d = parse_init dec in
+      Some (Printf.sprintf "XI %s %s" id (b01 (mon_init_rt m d && mon_init_dec (bytes_of_hex enc) d)))
+  | ["XID"; id; hx], [dec] -> Some (Printf.sprintf "XID %s %s" id (b01 (mon_init_dec (bytes_of_hex hx) (parse_init dec))))
+  | ["XA"; id; r; tc; rc; mbs; len; meta], [enc; dec] ->
+      let m = { a_receive = (r = "1"); a_tc = tc_of_byte (sn tc); a_rc = rc_of_byte (sn rc); a_mbs = sn mbs;
+                a_len = sn len; a_meta = bytes_of_hex meta } in
+      let d = parse_accept dec in
+      Some (Printf.sprintf "XA %s %s" id (b01 (mon_accept_rt m d && mon_accept_dec (r = "1") (bytes_of_hex enc) d)))
+  | ["XAD"; id; r; hx], [dec] ->
+      Some (Printf.sprintf "XAD %s %s" id (b01 (mon_accept_dec (r = "1") (bytes_of_hex hx) (parse_accept dec))))
+  | ["XB"; id; c; d], [enc; dec] ->
+      let r = parse_block dec in
+      Some (Printf.sprintf "XB %s %s" id (b01 (mon_block_rt (sn c) (bytes_of_hex d) r && mon_block_dec (bytes_of_hex enc) r)))
+  | ["XBD"; id; hx], [dec] -> Some (Printf.sprintf "XBD %s %s" id (b01 (mon_block_dec (bytes_of_hex hx) (parse_block dec))))
+  | ["XQ"; id; c; _tr], [enc; dec] ->
+      let r = parse_res sn dec in
+      let ok = (match r with Ok v -> v = sn c | _ -> false) in
+      Some (Printf.sprintf "XQ %s %s" id (b01 (ok && mon_query_dec (bytes_of_hex enc) r)))
+  | ["XQD"; id; hx], [dec] -> Some (Printf.sprintf "XQD %s %s" id (b01 (mon_query_dec (bytes_of_hex hx) (parse_res sn dec))))
+  | ["XS"; id; c; k; _tr], [enc; dec] ->
+      let r = parse_skip dec in
+      let ok = (match r with Ok (a, b) -> a = sn c && b = sn k | _ -> false) in
+      Some (Printf.sprintf "XS %s %s" id (b01 (ok && mon_skip_dec (bytes_of_hex enc) r)))
+  | ["XSD"; id; hx], [dec] -> Some (Printf.sprintf "XSD %s %s" id (b01 (mon_skip_dec (bytes_of_hex hx) (parse_skip dec))))
+  | ["A"; id; vid; pid; disc], [_enc; pa; ps] ->
+      let a = { a_vid = sn vid; a_pid = sn pid; a_disc = sn disc; a_additional = false } in
+      Some (Printf.sprintf "A %s %s" id (b01 (mon_adv_rt a (parse_adv pa) (parse_adv ps))))
+  | ["AR"; id; rid], [_enc; pa; ps] ->
+      let r = { r_id = bytes_of_hex rid; r_additional = false } in
+      Some (Printf.sprintf "AR %s %s" id (b01 (mon_radv_rt r (parse_radv pa) (parse_radv ps))))
+  | ["AD"; id; _hx], [pa; ps; ra; rs] ->
+      Some (Printf.sprintf "AD %s %s" id (b01 (mon_adv_dec (parse_adv pa) (parse_radv ra) && mon_adv_dec (parse_adv ps) (parse_radv rs))))
+  | "MC" :: id :: fields, [_published; parsed; m] ->
+      let a = comm_adv_of fields in
+      Some (Printf.sprintf "MC %s %s" id (b01 (mon_comm_rt a (parse_pairs parsed) && (not (comm_adv_valid a) || m = "1"))))
+  | ["MTD"; id; hx], [pairs] -> Some (Printf.sprintf "MTD %s %s" id (b01 (mon_txt_dec (bytes_of_hex hx) (parse_pairs pairs))))
+  | ["MN"; id; _; _; _], [_label; m] -> Some (Printf.sprintf "MN %s %s" id (b01 (m = "1")))
+  | ("MF" | "MI") :: id :: _, _ -> Some (Printf.sprintf "%s %s 1" (List.hd case) id)
   | _ -> None
+
 
 let () =
   let spec_mode = Array.length Sys.argv > 1 && Sys.argv.(1) = "spec" in
